@@ -34,6 +34,15 @@ pub struct ExpField {
     pub depth: usize,
     pub in_choice: bool,
     pub inherited: bool,
+    /// id of the innermost enclosing xs:choice (unique within the struct)
+    #[serde(default)]
+    pub choice_group: Option<usize>,
+    /// some enclosing sequence has minOccurs="0"
+    #[serde(default)]
+    pub in_optional_group: bool,
+    /// the member's own occurrence requires it (minOccurs >= 1) whenever its group is present
+    #[serde(default)]
+    pub required_in_group: bool,
 }
 
 #[derive(Clone, Debug, PartialEq, Eq, Serialize, Deserialize)]
@@ -101,9 +110,11 @@ struct Ctx {
     repeats: bool,
     in_choice: bool,
     depth: usize,
+    choice_group: Option<usize>,
+    seq_optional: bool,
 }
 
-fn flatten(m: &Model, file: usize, p: &Particle, ctx: &Ctx, out: &mut Vec<ExpField>) {
+fn flatten(m: &Model, file: usize, p: &Particle, ctx: &Ctx, out: &mut Vec<ExpField>, next_group: &mut usize) {
     let wrap = |occ: &Occ| {
         if occ.repeats() || ctx.repeats {
             Wrap::Vec
@@ -125,6 +136,9 @@ fn flatten(m: &Model, file: usize, p: &Particle, ctx: &Ctx, out: &mut Vec<ExpFie
             depth: ctx.depth,
             in_choice: ctx.in_choice,
             inherited: false,
+            choice_group: ctx.choice_group,
+            in_optional_group: ctx.seq_optional,
+            required_in_group: !occ.optional(),
         }),
         Particle::Ref { to, occ } => {
             let c = m.comp(*to);
@@ -139,18 +153,36 @@ fn flatten(m: &Model, file: usize, p: &Particle, ctx: &Ctx, out: &mut Vec<ExpFie
                 depth: ctx.depth,
                 in_choice: ctx.in_choice,
                 inherited: false,
+                choice_group: ctx.choice_group,
+                in_optional_group: ctx.seq_optional,
+                required_in_group: !occ.optional(),
             });
         }
         Particle::Seq(s) => {
-            let c = Ctx { optional: ctx.optional || s.min0, repeats: ctx.repeats || s.unbounded, in_choice: ctx.in_choice, depth: ctx.depth + 1 };
+            let c = Ctx {
+                optional: ctx.optional || s.min0,
+                repeats: ctx.repeats || s.unbounded,
+                in_choice: ctx.in_choice,
+                depth: ctx.depth + 1,
+                choice_group: ctx.choice_group,
+                seq_optional: ctx.seq_optional || s.min0,
+            };
             for q in &s.parts {
-                flatten(m, file, q, &c, out);
+                flatten(m, file, q, &c, out, next_group);
             }
         }
         Particle::Choice { min0, branches } => {
-            let c = Ctx { optional: ctx.optional || *min0, repeats: ctx.repeats, in_choice: true, depth: ctx.depth + 1 };
+            *next_group += 1;
+            let c = Ctx {
+                optional: ctx.optional || *min0,
+                repeats: ctx.repeats,
+                in_choice: true,
+                depth: ctx.depth + 1,
+                choice_group: Some(*next_group),
+                seq_optional: ctx.seq_optional || *min0,
+            };
             for q in branches {
-                flatten(m, file, q, &c, out);
+                flatten(m, file, q, &c, out, next_group);
             }
         }
     }
@@ -170,9 +202,11 @@ pub fn body_fields(m: &Model, file: usize, b: &Body, depth_guard: usize) -> Vec<
         }
     }
     if let Some(s) = &b.seq {
-        let c = Ctx { optional: s.min0, repeats: s.unbounded, in_choice: false, depth: 0 };
+        let c = Ctx { optional: s.min0, repeats: s.unbounded, in_choice: false, depth: 0, choice_group: None, seq_optional: s.min0 };
+        // group ids of inherited members come first; keep own ones distinct
+        let mut next_group = 1000 * (depth_guard + 1);
         for p in &s.parts {
-            flatten(m, file, p, &c, &mut out);
+            flatten(m, file, p, &c, &mut out, &mut next_group);
         }
     }
     for a in &b.attrs {
@@ -187,6 +221,9 @@ pub fn body_fields(m: &Model, file: usize, b: &Body, depth_guard: usize) -> Vec<
             depth: 0,
             in_choice: false,
             inherited: false,
+            choice_group: None,
+            in_optional_group: false,
+            required_in_group: a.use_ == AttrUse::Required,
         });
     }
     out
